@@ -3,7 +3,7 @@
 // max_send_attempts=2) with 3 transactions, 3 recipient nodes and a mock clock, compared after every call with a
 // queue model written from the comments in private_broadcast.h.
 // Part (b) of the property (net_processing: FindTxForGetData / m_last_inv_sequence, PushPrivateBroadcastTx,
-// BroadcastTransaction) is NOT covered by this check.
+// BroadcastTransaction) is explored by partb.cpp (c39_part_b(), called from run() below).
 //
 // The object reads NodeClock::now() (process-global mock time), therefore the search runs single-threaded.
 #include <vx/vx.h>
@@ -350,9 +350,10 @@ int run()
     for (auto& g : gates) E.set(std::string("n: ") + g.n, g.v);
     E.rule = "BFS over all histories of {Add(tx), Remove(tx), PickTxForSend(node) (also for a node that already has a tx), NodeConfirmedReception(node), clock +1min, clock +5min} with " + std::to_string(NTX) + " txs, " + std::to_string(NNODE) + " nodes on PrivateBroadcast(max_transactions=2, max_send_attempts=2); "
              "states merged on (the object's transaction table with all times relative to the clock, its iteration order, model state); after every call Add/Remove results, the picked tx (must be one of the model's best-priority candidates), GetTxForNode, DidNodeConfirmReception, HavePendingTransactions, GetStale and the full GetBroadcastInfo are compared with the queue model; monitors: queue <= max, <= max_send_attempts picks per (re-)Add, one tx per node";
+    E.rule += "; part b: DFS with fork-per-transition over histories of {M<i> local submit, R<i> tx from peer Q, V<i> private submit, SendMessages(A|B), getdata(A|B, i), block, open private connection, private peer requests announced/other tx} on the real PeerManager, states merged on (pool membership, entry order vs last inv per peer, announced, recent block, private flags, private queue info, connection state); states/transitions are the sums of both parts";
     E.assume("behaviour is invariant under a common shift of all times (states are merged on times relative to the mock clock)");
     E.assume("where several transactions have equal priority PickTxForSend may return any of them; the choice is adopted by the model");
-    E.assume("only the PrivateBroadcast object is explored; the net_processing side of the property (getdata after inv, private-broadcast connections) is not covered");
+    E.assume("part a explores only the PrivateBroadcast object; the net_processing side of the property (getdata after inv, private-broadcast connections) is explored by part b (partb_* keys)");
     if (bfs.complete && vx::rep().violations == 0)
         for (auto& g : gates) if (g.v == 0) { printf("HARNESS-ERROR vacuous: never observed '%s'\n", g.n); vx::write_evidence(); return 2; }
     return vx::finish();
